@@ -196,7 +196,7 @@ COMMENT_TEXTS = [" note", " a, b (c)", " drop this;", " use b instead of a", " i
 NCT = len(COMMENT_TEXTS)
 BASE_SCRIPTS = [["CREATE TABLE t (", "a int,", "b varchar(10) NOT NULL,", "c int", ");", "CREATE SEQUENCE q START 1;"],
                 # lines that carry quoted literals (a double quote inside single quotes, an apostrophe inside double quotes)
-                ["CREATE TABLE t (", "a varchar(3) DEFAULT '\"',", "b varchar(10) COMMENT \"it's\",", "c int DEFAULT 'x'", ");", "CREATE SEQUENCE q START 1;"]]
+                ["CREATE TABLE t (", "a varchar(3) DEFAULT '\"',", "\"b's\" varchar(10),", "c int DEFAULT 'x'", ");", "CREATE SEQUENCE q START 1;"]]
 BASE_SCRIPT = BASE_SCRIPTS[env_int("VF_BASE", 0)]
 BASE_RESULT = run_lines(BASE_SCRIPT)
 NBL = len(BASE_SCRIPT)
